@@ -121,6 +121,12 @@ MUTANTS = [
     ("p1_alias_constant", "bempp_cl/api/space/scalar_spaces.py", "local2global_final[element_index, local_index] = max_dof", "local2global_final[element_index, local_index] = 0", 0, ["C16", "C09"]),
     # ---- algebra / solvers / io / state
     ("product_operand_order", "bempp_cl/api/assembly/boundary_operator.py", "return self._op1.weak_form() * self._op2.strong_form()", "return self._op2.weak_form() * self._op1.strong_form()", 0, ["C14"]),
+    ("blocked_product_order", "bempp_cl/api/assembly/blocked_operator.py", "return self._op1.weak_form() * self._op2.strong_form()", "return self._op2.weak_form() * self._op1.strong_form()", 0, ["C14"]),
+    ("blocked_product_domain", "bempp_cl/api/assembly/blocked_operator.py", "return tuple(self._op2.domain_spaces)", "return tuple(self._op1.domain_spaces)", 0, ["C14"]),
+    ("blocked_strong_form_spaces", "bempp_cl/api/assembly/blocked_operator.py", "                    self.range_spaces[index], self.dual_to_range_spaces[index]\n", "                    self.dual_to_range_spaces[index], self.range_spaces[index]\n", 0, ["C14"]),
+    ("blocked_matvec_column_offset", "bempp_cl/api/assembly/blocked_operator.py", "                col_dim += self._cols[j]\n", "                col_dim += self._rows[i]\n", 0, ["C14"]),
+    ("blocked_matvec_complex_split", "bempp_cl/api/assembly/blocked_operator.py", "                    local_res += self._operators[i, j].dot(_np.real(local_x)) + 1j * self._operators[i, j].dot(\n                        _np.imag(local_x)\n                    )", "                    local_res += self._operators[i, j].dot(_np.real(local_x)) + self._operators[i, j].dot(\n                        _np.imag(local_x)\n                    )", 0, ["C14"]),
+    ("blocked_sum_guard", "bempp_cl/api/assembly/blocked_operator.py", "            or op1.range_spaces != op2.range_spaces\n", "", 0, ["C14"]),
     ("sum_guard_dropped_pair", "bempp_cl/api/assembly/boundary_operator.py", "            or not op1.range.is_compatible(op2.range)\n", "", 0, ["C14"]),
     ("discrete_product_matvec", "bempp_cl/api/assembly/discrete_boundary_operator.py", "return self._op1 @ (self._op2 @ x)", "return self._op2 @ (self._op1 @ x)", 0, ["C14"]),
     ("scaled_to_sparse_alpha", "bempp_cl/api/assembly/discrete_boundary_operator.py", "return self._alpha * self._op.to_sparse()", "return self._op.to_sparse()", 0, ["C14"]),
@@ -192,6 +198,8 @@ EQUIVALENTS = [
     ("eq_geom_centroid", "bempp_cl/api/grid/grid.py", "centroids = 1.0 / 3 * _np.sum(_np.reshape(element_vertices, (self.number_of_elements, 3, 3)), axis=1)", "centroids = _np.sum(element_vertices.reshape(self.number_of_elements, 3, 3), axis=1) / 3", 0, ["C11"]),
     ("eq_maxwell_fmm_unrolled", "bempp_cl/api/fmm/fmm_assembler.py", "        for index in range(3):\n            result += dual_rwg_map[index] @ fmm_interface.evaluate(domain_rwg_map[index] @ x)[:, 0]\n\n        result *= -1j * wavenumber\n",
      "        pot = [fmm_interface.evaluate(domain_rwg_map[c] @ x) for c in (0,)]\n        result = dual_rwg_map[0] @ pot[0][:, 0]\n        result += dual_rwg_map[2] @ fmm_interface.evaluate(domain_rwg_map[2] @ x)[:, 0]\n        result += dual_rwg_map[1] @ fmm_interface.evaluate(domain_rwg_map[1] @ x)[:, 0]\n        result = result * wavenumber * (-1j)\n", 0, ["C17"]),
+    ("eq_block_matvec_rename", "bempp_cl/api/assembly/blocked_operator.py", "            col_dim = 0\n            local_res = res[row_dim : row_dim + self._rows[i]]\n            for j in range(self._ndims[1]):\n                local_x = x[col_dim : col_dim + self._cols[j]]\n",
+     "            c0 = 0\n            col_dim = c0\n            nr = self._rows[i]\n            local_res = res[row_dim : nr + row_dim]\n            for j in range(self._ndims[1]):\n                local_x = x[col_dim : self._cols[j] + col_dim]\n", 0, ["C14"]),
     ("eq_refine_rename", "bempp_cl/api/grid/grid.py", "            vertex01 = self.element_edges[0, index] + self.number_of_vertices\n            vertex20 = self.element_edges[1, index] + self.number_of_vertices\n            vertex12 = self.element_edges[2, index] + self.number_of_vertices\n\n            new_elements[:, 4 * index] = [vertex0, vertex01, vertex20]\n\n            new_elements[:, 4 * index + 1] = [vertex01, vertex1, vertex12]\n\n            new_elements[:, 4 * index + 2] = [vertex12, vertex2, vertex20]\n\n            new_elements[:, 4 * index + 3] = [vertex01, vertex12, vertex20]\n",
      "            nv = self.number_of_vertices\n            m_a = nv + self.element_edges[0, index]\n            m_b = nv + self.element_edges[1, index]\n            m_c = nv + self.element_edges[2, index]\n            new_elements[:, 3 + 4 * index] = [m_a, m_c, m_b]\n            new_elements[:, 4 * index + 2] = [m_c, vertex2, m_b]\n            new_elements[:, 1 + index * 4] = [m_a, vertex1, m_c]\n            new_elements[:, index * 4] = [vertex0, m_a, m_b]\n", 0, ["C11", "C04"]),
     ("eq_union_rename", "bempp_cl/api/grid/grid.py", "        vertices[:, vertex_offset : vertex_offset + nvertices] = grid.vertices\n        if swapped_normals[index]:\n            current_elements = grid.elements[[0, 2, 1], :]\n        else:\n            current_elements = grid.elements\n        elements[:, element_offset : element_offset + nelements] = current_elements + vertex_offset\n        all_domain_indices[element_offset : element_offset + nelements] = domain_indices[index]\n        vertex_offset += nvertices\n        element_offset += nelements\n",
